@@ -82,15 +82,16 @@ where
         let tap2_changes =
             self.device.config.tap_config.tap_config1.bits() != self.config.tap_config1.bits();
         let tap_changes = tap1_changes || tap2_changes;
-        let mut tmp_int_config = self.device.config.int_config.get_config1();
+        let int_config1 = self.device.config.int_config.get_config1();
 
         // Disable the interrupt, if active
         if (self.device.config.int_config.get_config1().s_tap_int()
             || self.device.config.int_config.get_config1().d_tap_int())
             && tap_changes
         {
-            tmp_int_config = tmp_int_config.with_s_tap_int(false).with_d_tap_int(false);
+            let tmp_int_config = int_config1.with_s_tap_int(false).with_d_tap_int(false);
             self.device.interface.write_register(tmp_int_config)?;
+            self.device.config.int_config.set_config1(tmp_int_config);
         }
         if tap1_changes {
             self.device.interface.write_register(self.config.tap_config0)?;
@@ -101,8 +102,9 @@ where
             self.device.config.tap_config.tap_config1 = self.config.tap_config1;
         }
         // Re-enable the interrupt, if disabled
-        if self.device.config.int_config.get_config1().bits() != tmp_int_config.bits() {
-            self.device.interface.write_register(self.device.config.int_config.get_config1())?;
+        if self.device.config.int_config.get_config1().bits() != int_config1.bits() {
+            self.device.interface.write_register(int_config1)?;
+            self.device.config.int_config.set_config1(int_config1);
         }
         Ok(())
     }
